@@ -71,6 +71,7 @@ func NewServer(cfg v1.WebServerConfig) (*Server, error) {
 		hs:     hs,
 		router: router,
 	}
+	s.authMiddleware = netpkg.NewHTTPAuthMiddleware(cfg.User, cfg.Password).SetAuthFailDelay(200 * time.Millisecond).Middleware
 	if cfg.PprofEnable {
 		s.registerPprofHandlers()
 	}
@@ -83,7 +84,6 @@ func NewServer(cfg v1.WebServerConfig) (*Server, error) {
 			Certificates: []tls.Certificate{cert},
 		}
 	}
-	s.authMiddleware = netpkg.NewHTTPAuthMiddleware(cfg.User, cfg.Password).SetAuthFailDelay(200 * time.Millisecond).Middleware
 	return s, nil
 }
 
@@ -118,9 +118,12 @@ func (s *Server) RouteRegister(register func(helper *RouterRegisterHelper)) {
 }
 
 func (s *Server) registerPprofHandlers() {
-	s.router.HandleFunc("/debug/pprof/cmdline", pprof.Cmdline)
-	s.router.HandleFunc("/debug/pprof/profile", pprof.Profile)
-	s.router.HandleFunc("/debug/pprof/symbol", pprof.Symbol)
-	s.router.HandleFunc("/debug/pprof/trace", pprof.Trace)
-	s.router.PathPrefix("/debug/pprof/").HandlerFunc(pprof.Index)
+	// the profiler exposes the command line, heap and goroutine dumps: same credentials as the API
+	subRouter := s.router.NewRoute().Subrouter()
+	subRouter.Use(s.authMiddleware)
+	subRouter.HandleFunc("/debug/pprof/cmdline", pprof.Cmdline)
+	subRouter.HandleFunc("/debug/pprof/profile", pprof.Profile)
+	subRouter.HandleFunc("/debug/pprof/symbol", pprof.Symbol)
+	subRouter.HandleFunc("/debug/pprof/trace", pprof.Trace)
+	subRouter.PathPrefix("/debug/pprof/").HandlerFunc(pprof.Index)
 }
